@@ -413,22 +413,54 @@ theorem embeds_of_idPrefix' : ∀ (a b : DTree), IdPrefix a b → Embeds a b
   | _, _, .leaf i s b _ h2 => Embeds.hole i s b h2
   | _, _, .node i s ks ks' hl h => Embeds.node i s ks ks' hl (fun n h1 h2 => embeds_of_idPrefix' _ _ (h n h1 h2))
 
+/-- declarative reading of `keepsNode` -/
+def KeepsNode (u v : DTree) : Prop :=
+  v.id = u.id ∧ v.sym = u.sym ∧
+  (∀ i s ks, u = node i s ks → ∃ j s' ks', v = node j s' ks' ∧ ks'.map DTree.sym = ks.map DTree.sym)
+
+theorem keepsNode_iff' (u v : DTree) : keepsNode u v = true ↔ KeepsNode u v := by
+  unfold keepsNode KeepsNode
+  cases u with
+  | openLeaf i s =>
+    simp only [Bool.and_eq_true, beq_iff_eq, and_true]
+    constructor
+    · rintro ⟨h1, h2⟩; exact ⟨h1, h2, by intro i s ks h; cases h⟩
+    · rintro ⟨h1, h2, _⟩; exact ⟨h1, h2⟩
+  | node i s ks =>
+    cases v with
+    | openLeaf j s' =>
+      simp only [Bool.and_eq_true, beq_iff_eq]
+      constructor
+      · rintro ⟨_, h⟩; cases h
+      · rintro ⟨_, _, h⟩
+        obtain ⟨_, _, _, h', _⟩ := h i s ks rfl
+        cases h'
+    | node j s' ks' =>
+      simp only [Bool.and_eq_true, beq_iff_eq]
+      constructor
+      · rintro ⟨⟨h1, h2⟩, h3⟩
+        refine ⟨h1, h2, ?_⟩
+        intro i0 s0 ks0 h
+        cases h
+        exact ⟨j, s', ks', rfl, h3⟩
+      · rintro ⟨h1, h2, h3⟩
+        obtain ⟨_, _, _, h', h4⟩ := h3 i s ks rfl
+        cases h'
+        exact ⟨⟨h1, h2⟩, h4⟩
+
 theorem insertCheck_sound' (g : Grammar) (host ins r : DTree) (h : insertCheck g host ins r = true) :
     r.valid g = true ∧ r.sym = host.sym ∧
-    (∀ p u, host.get p = some u → ∃ q v, r.get q = some v ∧ v.id = u.id ∧ v.sym = u.sym) ∧
+    (∀ p u, host.get p = some u → ∃ q v, r.get q = some v ∧ KeepsNode u v) ∧
     (∃ q v, r.get q = some v ∧ Embeds ins v) := by
   simp only [insertCheck, Bool.and_eq_true, beq_iff_eq] at h
   obtain ⟨⟨⟨h1, h2⟩, h3⟩, h4⟩ := h
   refine ⟨h1, h2, ?_, ?_⟩
   · intro p u hg
     rw [List.all_eq_true] at h3
-    have hm : (u.id, u.sym) ∈ idLabels host :=
-      List.mem_map.2 ⟨(p, u), (C04.mem_paths_iff host p u).2 hg, rfl⟩
-    have hc := h3 _ hm
-    rw [List.contains_iff_mem] at hc
-    obtain ⟨⟨q, v⟩, hqv, he⟩ := List.mem_map.1 hc
-    simp only [Prod.mk.injEq] at he
-    exact ⟨q, v, (C04.mem_paths_iff r q v).1 hqv, he.1, he.2⟩
+    have hc := h3 (p, u) ((C04.mem_paths_iff host p u).2 hg)
+    rw [List.any_eq_true] at hc
+    obtain ⟨⟨q, v⟩, hqv, hk⟩ := hc
+    exact ⟨q, v, (C04.mem_paths_iff r q v).1 hqv, (keepsNode_iff' u v).1 hk⟩
   · rw [List.any_eq_true] at h4
     obtain ⟨⟨q, v⟩, hqv, hp⟩ := h4
     exact ⟨q, v, (C04.mem_paths_iff r q v).1 hqv, (embedsAt_iff' ins v).1 hp⟩
